@@ -24,7 +24,7 @@ RULE = ("sessions over (host active / equipment passive and the reverse) x (enab
         "list_alarms, list_enabled_alarms, enable/disable_alarm, go_online, go_offline, send_remote_command, are_you_there} "
         "(incl. clear_collection_events followed by a new subscription; 15% of the sessions with the first answers of the passive side "
         "later than the active side's T6) and equipment actions {trigger (ids as numbers and as CollectionEventId members, one or two per call), set/clear alarm, control switches, value updates} and 0-3 disable/enable cycles of "
-        "either side; distinct by (configuration, link seed, call sequence); non-trivial when the API phase ran at least 5 calls")
+        "either side; distinct by (configuration, link seed, call sequence); non-trivial when the API phase ran at least 5 calls; plus: re-subscription after clear_collection_events with another variable list under the same report id; sessions over the real TCP transport with disable / enable sequences of one or both sides (restart one, both down and up in either order, one side up-down-up alone)")
 ASSUMPTIONS = ["'within a bounded time' is virtual time: at most 10 establish-communications timer expiries per convergence, "
                "with a 20 s wall-clock watchdog whose firing is inconclusive unless every thread is parked",
                "the in-memory link reproduces TCP connection semantics (see lib/pipe.py, lib/link.py)",
